@@ -10,16 +10,27 @@
    claimer is the table's, and its items lie in store order behind the field's placeholder), auto_ok in a repeated
    auto-claim, adjacent_comment before an unclaim+claim.
 
+   Closed in session 4 (CommentsRange.v = the claimer's range read off _find_outer/_find_inner, CommentsComplete.v):
+     C14_claimer_claim_covers / _frame / C14_claimer_range_stops : claim_interleaving_comments() claims exactly the
+        unclaimed block comments (with text) of its range and nothing outside it; the range ends in front of the
+        first claimed comment / token with text that is no Newline or Whitespace, and behind the model's first/last
+        token - comments beyond are NOT covered, nor are comments inside the span of an item.
+     C14_file_auto_claim_all_claimed, C14_idempotent_file : "no block comment is left unowned" for the root File and
+        idempotence of File.auto_claim_comments WITHOUT assuming that everything is claimed.  The one hypothesis about
+        what the children's claims leave behind is the boolean file_cover_b (every block comment still unclaimed when
+        the File's own claim starts lies in the File's range and has text), evaluated per trace at every File-level
+        claim (CommentsRun k_mode 4; counter hyp_file_cover_steps).  C14_idempotent_partial is kept (any sub-model,
+        under all_claimed).
+     C14_unclaim_claim_interleaving : full; acceptance of the claim (C14_claim_accepted, with the converse
+        C14_claim_accepted_only and C14_claimer_only_value_error) under the position hypothesis claimable_b (every
+        comment of cs is an unclaimed comment in the range of the field, or an entry already), evaluated per trace
+        (k_mode 3; counter hyp_restore_interleaving).  Without it the statement is FALSE:
+        C14_unclaim_claim_interleaving_unconditional_refuted - a comment entry appended to the empty meta field of a
+        directive without indented body (no DedentMark): after the un-claim the model's last token is the field's own
+        placeholder = the scan limit, claim_interleaving_comments(cs) raises ValueError('1 comment(s) not found.');
+        reproduced on the implementation (parse '2000-01-01 open Assets:A\n', raw_meta_with_comments.append(
+        BlockComment.from_value('c', indent='  ')), unclaim_interleaving_comments(), claim_interleaving_comments(u)).
    Still partial:
-     C14_unclaim_claim_interleaving_partial : unclaim_interleaving_comments(cs) then claim_interleaving_comments(cs)
-        gives back the same entries (as a multiset; their order is the store order) and the same flags, *if the
-        claim is accepted*. Missing: that it is accepted (no ValueError), which needs the position of the comments
-        relative to the model's first/last token; evaluated by the monitor C14:unclaim-claim.
-        (C14_unclaim_claim_surrounding, the leading/trailing half, is complete.)
-     C14_idempotent_partial : under the hypothesis that every block comment of the store is claimed (what the first
-        File.auto_claim_comments establishes: monitor C14:unowned-after-parse; not proved because it needs the
-        whole-tree traversal). Does not speak about auto_claim_comments of a sub-model while comments elsewhere
-        are unclaimed.
      C14_rule_single_claim is complete for one surrounding claim (declarative iff on the token list; the
         _sound/_complete forms add the resulting document).  The rule over whole layouts is NOT proved.
         Missing: attrib_spec over whole line layouts (priority leading > trailing > standalone across models, and
@@ -99,3 +110,112 @@ Example C14_nonvacuous :
    snd (fold_left cstep ops (ex_doc, [])) = [(SRep 9, []); (STrail 7, [6])]) /\
   adjacent_comment ex_doc 3 false (Some false) = Some (mktok 6 KBlockComment [59; 32; 99] false).
 Proof. split; [exact ex_inv | repeat split; vm_compute; reflexivity]. Qed.
+
+(* ---- session 4: the range of the interleaving claimer, "no comment is left unowned", acceptance of a re-claim ---- *)
+From AB Require Import CommentsRange CommentsComplete.
+
+(* where one _find_outer scan stops: the run is a prefix of the walk made of tokens the scan steps over; it ends at
+   the end of the store, behind the limit token, or in front of a token that stops it *)
+Theorem C14_claimer_range_stops : forall w prev limit,
+  exists rest, w = outer_run prev w limit ++ rest /\
+    forallb passes (outer_run prev w limit) = true /\
+    (rest = [] \/ last (prev :: ids (outer_run prev w limit)) 0 = limit \/
+     exists s r, rest = s :: r /\ passes s = false).
+Proof. exact outer_run_decl. Qed.
+
+Theorem C14_claimer_claim_covers : forall d ph items mf ml ret its d',
+  NoDup (ids d) ->
+  claimer_claim d ph items mf ml None = (Ok (ret, its), d') ->
+  (forall x, In x (old_comments items) -> In x (comments_of its)) /\
+  forall t', In t' d' -> is_comment t' = true -> text_empty t' = false ->
+    In (t_id t') (ids (claim_range d ph items mf ml)) ->
+    t_claimed t' = true /\
+    (forall t, In t d -> t_id t = t_id t' -> t_claimed t = false -> In (t_id t') (comments_of its)).
+Proof. exact claimer_claim_covers. Qed.
+
+Theorem C14_claimer_claim_frame : forall d ph items mf ml flt ret its d',
+  claimer_claim d ph items mf ml flt = (Ok (ret, its), d') ->
+  (forall x, In x (comments_of its) -> In x (ids (claim_range d ph items mf ml)) \/ In x (old_comments items)) /\
+  (forall t', In t' d' -> ~ In (t_id t') (ids (claim_range d ph items mf ml)) ->
+              ~ In (t_id t') (old_comments items) -> In t' d).
+Proof. exact claimer_claim_frame. Qed.
+
+(* the claimer raises nothing but ValueError('... not found') - exactly when comments of the list are left over -
+   and has written nothing then *)
+Theorem C14_claimer_only_value_error : forall d ph items mf ml flt,
+  NoDup (ids d) -> has_tok_b d ph = true -> items_ordered_b d ph items = true ->
+  exists wb wa cb_rev s1 inner s2 ca s3,
+    walk d ph true = Some wb /\ walk d (rep_last ph items) false = Some wa /\
+    find_outer ph wb mf flt = (cb_rev, s1) /\ find_inner d (from_incl d ph) items s1 = (inner, s2) /\
+    find_outer (rep_last ph items) wa ml s2 = (ca, s3) /\
+    let its := map (fun c => (true, c)) (rev cb_rev) ++ inner ++ map (fun c => (true, c)) ca in
+    if cs_nonempty s3 then claimer_claim d ph items mf ml flt = (Err ValueError, d)
+    else exists d2, Permutation.Permutation d2 d /\
+         claimer_claim d ph items mf ml flt = (Ok (comments_of its, its), claim_all (comments_of its) d2).
+Proof. exact claimer_claim_total. Qed.
+
+Theorem C14_claim_accepted : forall d ph items mf ml cs,
+  NoDup (ids d) -> has_tok_b d ph = true -> items_ordered_b d ph items = true ->
+  claimable_b d ph items mf ml cs = true ->
+  exists ret its d', claimer_claim d ph items mf ml (Some cs) = (Ok (ret, its), d').
+Proof. exact claimer_claim_accepts. Qed.
+
+Theorem C14_claim_accepted_only : forall d ph items mf ml cs ret its d',
+  claimer_claim d ph items mf ml (Some cs) = (Ok (ret, its), d') ->
+  forall c, In c cs -> In c (ids (claim_range d ph items mf ml)) \/ In c (old_comments items).
+Proof. exact claimer_claim_accepted_only. Qed.
+
+Theorem C14_file_auto_claim_all_claimed : forall d tb r ph items mf ml,
+  Inv (d, tb) -> items_ordered_b d ph items = true -> file_cover_b d ph items mf ml = true ->
+  all_claimed (fst (cstep (d, tb) (OClaimInter r ph items mf ml None))).
+Proof. exact file_claim_all_claimed. Qed.
+
+(* File.auto_claim_comments() = ops1 (the children, last to first) followed by the File's own
+   claim_interleaving_comments(); ops2 = the calls of a second run *)
+Theorem C14_idempotent_file : forall ops1 st r ph items mf ml ops2,
+  Inv st -> hist_ok (ops1 ++ [OClaimInter r ph items mf ml None]) st = true ->
+  file_cover_b (fst (fold_left cstep ops1 st)) ph items mf ml = true ->
+  let st2 := fold_left cstep (ops1 ++ [OClaimInter r ph items mf ml None]) st in
+  all_claimed (fst st2) /\
+  (hist_auto_ok ops2 st2 = true ->
+   fst (fold_left cstep ops2 st2) = fst st2 /\ teq (snd (fold_left cstep ops2 st2)) (snd st2)).
+Proof. exact idempotent_file. Qed.
+
+Theorem C14_unclaim_claim_interleaving : forall d tb r items flt un kept d1 ph items2 mf ml,
+  Inv (d, tb) -> refs_ok_b d items = true -> old_comments items = tget tb (SRep r) ->
+  unclaim_inter d items flt = (Ok (un, kept), d1) ->
+  map oitem_of items2 = kept -> items_ordered_b d1 ph items2 = true ->
+  has_tok_b d1 ph = true -> claimable_b d1 ph items2 mf ml un = true ->
+  exists ret its d2, claimer_claim d1 ph items2 mf ml (Some un) = (Ok (ret, its), d2) /\
+    (forall c, count_z c (comments_of its) = count_z c (old_comments items)) /\ Permutation.Permutation d2 d.
+Proof. exact inter_unclaim_claim_full. Qed.
+
+Theorem C14_unclaim_claim_interleaving_unconditional_refuted :
+  exists d tb r items flt un kept d1 ph items2 mf ml,
+    Inv (d, tb) /\ refs_ok_b d items = true /\ old_comments items = tget tb (SRep r) /\
+    items_ordered_b d ph items = true /\
+    unclaim_inter d items flt = (Ok (un, kept), d1) /\ map oitem_of items2 = kept /\
+    items_ordered_b d1 ph items2 = true /\ has_tok_b d1 ph = true /\
+    claimer_claim d1 ph items2 mf ml (Some un) = (Err ValueError, d1) /\
+    claimable_b d1 ph items2 mf ml un = false.
+Proof. exact inter_unclaim_claim_unconditional_refuted. Qed.
+
+(* non-vacuity: on ex_doc (placeholder, a directive, `; c` two lines below it, another token) the File-level
+   hypotheses hold, the claim takes the comment (range = placeholder, the two line breaks and the comment - not the
+   token behind them), a second run is an auto history; after un-claiming the comment the re-claim hypotheses hold *)
+Example C14_complete_nonvacuous :
+  let items := [mkitem false 7 2 4] in
+  let items' := [mkitem false 7 2 4; mkitem true 6 6 6] in
+  let st1 := cstep (ex_doc, []) (OClaimInter 9 1 items 1 8 None) in
+  hist_ok ([] ++ [OClaimInter 9 1 items 1 8 None]) (ex_doc, []) = true /\
+  file_cover_b ex_doc 1 items 1 8 = true /\
+  hist_auto_ok [OClaimInter 9 1 items' 1 8 None] st1 = true /\
+  map t_id (filter t_claimed (fst st1)) = [6] /\ snd st1 = [(SRep 9, [6])] /\
+  ids (claim_range ex_doc 1 items 1 8) = [1; 5; 6; 7] /\
+  (let d := fst st1 in
+   refs_ok_b d items' = true /\ old_comments items' = tget (snd st1) (SRep 9) /\
+   unclaim_inter d items' (Some [6]) = (Ok ([6], [(false, 7)]), unclaim_all [6] d) /\
+   items_ordered_b (unclaim_all [6] d) 1 items = true /\ has_tok_b (unclaim_all [6] d) 1 = true /\
+   claimable_b (unclaim_all [6] d) 1 items 1 8 [6] = true /\
+   fst (claimer_claim (unclaim_all [6] d) 1 items 1 8 (Some [6])) = Ok ([6], [(false, 7); (true, 6)])).
+Proof. repeat split; vm_compute; reflexivity. Qed.
